@@ -170,7 +170,9 @@ impl GravsoftSpec {
         for (i, h) in header.iter().enumerate() {
             emit(&mut out, &mut rng, *h, i == 5);
         }
-        if style != 1 {
+        // the header usually sits on a line of its own, but the format is free: in the
+        // wild layout the first node values may share the line of the sixth header number
+        if style != 1 && !(style == 2 && rng.chance(0.5)) {
             out.push_str(eol);
         }
         let per_row = self.cols * self.bands;
